@@ -16,18 +16,19 @@ Definition desc_lit : re := Grp 3 (Star CAny).
 Definition name_mp_lit : re := Seq (Grp 0 (Star (CNot (CChar 58)))) (Cls (CChar 58)).
 Definition value_mp_lit : re := Grp 2 (Star CAny).
 Definition dd_lit : re := Seq (Cls (CNot (CChar 32))) (Seq (Cls (CChar 46)) (Cls (CChar 46))).
+Definition behind_lit : list (list cls) :=
+  [[CChar 32; CRange 48 50; CRange 48 51]; [CChar 32; CChar 104; CChar 104]; [CChar 32; CChar 72; CChar 72]].
+Definition ahead_lit : list (list cls) :=
+  [[CRange 48 53; CRange 48 57]; [CChar 109; CChar 109]; [CChar 77; CChar 77]].
 Definition tvalue_lit : re :=
-  Seq (Grp 2 (LStar CAny))
-    (Seq (NotBehind [[CChar 32; CRange 48 50; CRange 48 51]; [CChar 32; CChar 104; CChar 104];
-                     [CChar 32; CChar 72; CChar 72]])
-       (Seq (Cls (CChar 58))
-          (NotAhead [[CRange 48 53; CRange 48 57]; [CChar 109; CChar 109]; [CChar 77; CChar 77]]))).
+  Seq (Grp 2 (LStar CAny)) (Seq (NotBehind behind_lit) (Seq (Cls (CChar 58)) (NotAhead ahead_lit))).
 
 Definition patterns_current : Prop :=
   rx_name_re = name_lit /\ rx_unit_re = unit_lit /\ rx_value_re = value_lit /\
   rx_desc_re = desc_lit /\ rx_name_missing_period_re = name_mp_lit /\
   rx_value_missing_period_re = value_mp_lit /\ rx_no_desc_re = Eps /\ rx_no_unit_re = Eps /\
-  rx_double_dot_search = dd_lit /\ rx_value_with_time_colon_re = tvalue_lit.
+  rx_double_dot_search = dd_lit /\ rx_value_with_time_colon_re = tvalue_lit /\
+  time_behind_alts = behind_lit /\ time_ahead_alts = ahead_lit.
 
 Lemma patterns_are_current : patterns_current.
 Proof. repeat split; reflexivity. Qed.
@@ -234,17 +235,22 @@ Definition head_space (W : list N) : Prop :=
 Definition needs_colon (cont : K) : Prop :=
   forall p b cs, in_str 58 b = false -> cont (mkst p b cs) = None.
 
+(* when the value zone W is empty the non-space star over-runs the separating colon and has
+   to back off: safe when nothing after the separator can satisfy the continuation *)
+Definition overrun_safe (W D : list N) (cont : K) : Prop :=
+  W = [] -> in_str 58 D = false /\ needs_colon cont.
+
 (* the non-space star takes exactly w: the next character is white space, or it is the
    separating colon itself and every longer split leaves no colon for the continuation *)
 Lemma nonspace_run w W D p cs cont r :
-  no_space w = true -> head_space W -> in_str 58 D = false -> needs_colon cont ->
+  no_space w = true -> head_space W -> overrun_safe W D cont ->
   cont (mkst (rev w ++ p) (W ++ 58 :: D) cs) = Some r ->
   star_g (CNot CSpace) p (w ++ W ++ 58 :: D) cs cont = Some r.
 Proof.
-  intros Hw HW HD Hf Hk. apply star_g_pick; [exact Hw|exact Hk|].
+  intros Hw HW Hov Hk. apply star_g_pick; [exact Hw|exact Hk|].
   intros a b Ha E Hall. destruct a as [|a0 a]; [congruence|].
   destruct W as [|w0 W]; cbn [app] in E; injection E as E0 E1.
-  - apply Hf. subst D. apply in_str_suffix in HD. exact HD.
+  - destruct (Hov eq_refl) as [HD Hf]. apply Hf. subst D. apply in_str_suffix in HD. exact HD.
   - subst a0. cbn [forallb cmatch] in Hall. cbn in HW. rewrite HW in Hall. discriminate.
 Qed.
 
@@ -267,11 +273,11 @@ Qed.
 
 Lemma unit_plain_run u W D p cs cont r :
   no_space u = true -> is_nil u || negb (all_digit u) = true ->
-  head_space W -> in_str 58 D = false -> needs_colon cont ->
+  head_space W -> overrun_safe W D cont ->
   cont (mkst (rev u ++ p) (W ++ 58 :: D) ((1%nat, u) :: cs)) = Some r ->
   m unit_lit (mkst p (u ++ W ++ 58 :: D) cs) cont = Some r.
 Proof.
-  intros Hu Hnd HW HD Hf Hk. unfold unit_lit. mstep. rewrite m_opt. apply opt_none.
+  intros Hu Hnd HW Hov Hk. unfold unit_lit. mstep. rewrite m_opt. apply opt_none.
   - (* the optional digits-blank group cannot start here *)
     mstep. destruct u as [|c u].
     + cbn [app]. destruct W as [|w0 W]; cbn [app]; rewrite m_plus_cons.
@@ -284,8 +290,9 @@ Proof.
       apply digits_space_fail; [exact Hu|].
       cbn [all_digit forallb] in Hnd. change (cmatch (CRange 48 57) c) with (is_digit c) in Hdc.
       rewrite Hdc in Hnd. exact Hnd.
-  - mstep. apply nonspace_run; [exact Hu|exact HW|exact HD| |].
-    + intros p' b cs' Hb. apply Hf. exact Hb.
+  - mstep. apply nonspace_run; [exact Hu|exact HW| |].
+    + intros E. destruct (Hov E) as [HD Hf]. split; [exact HD|].
+      intros p' b cs' Hb. apply Hf. exact Hb.
     + mstep. rewrite firstn_app_len. exact Hk.
 Qed.
 
@@ -298,20 +305,21 @@ Proof. rewrite <- app_assoc. reflexivity. Qed.
 (* "1000 lbf": digits, one white-space character, a white-space-free word *)
 Lemma unit_num_run ds sp w W D p cs cont r :
   ds <> [] -> all_digit ds = true -> is_space sp = true -> no_space w = true ->
-  head_space W -> in_str 58 D = false -> needs_colon cont ->
+  head_space W -> overrun_safe W D cont ->
   cont (mkst (rev w ++ sp :: rev ds ++ p) (W ++ 58 :: D)
           ((1%nat, ds ++ sp :: w) :: (102%nat, ds ++ [sp]) :: cs)) = Some r ->
   m unit_lit (mkst p (ds ++ sp :: w ++ W ++ 58 :: D) cs) cont = Some r.
 Proof.
-  intros Hne Hds Hsp Hw HW HD Hf Hk. unfold unit_lit. mstep. rewrite m_opt. apply opt_some.
+  intros Hne Hds Hsp Hw HW Hov Hk. unfold unit_lit. mstep. rewrite m_opt. apply opt_some.
   mstep. destruct ds as [|d0 ds]; [congruence|].
   cbn [all_digit forallb] in Hds. apply andb_true_iff in Hds as [Hd0 Hds].
   cbn [app]. rewrite m_plus_cons. change (cmatch (CRange 48 57) d0) with (is_digit d0). rewrite Hd0.
   apply star_g_max; [exact Hds| |].
   - change (cmatch (CRange 48 57) sp) with (is_digit sp). apply space_not_digit. exact Hsp.
   - rewrite cls_step by exact Hsp. mstep.
-    apply nonspace_run; [exact Hw|exact HW|exact HD| |].
-    + intros p' b cs' Hb. apply Hf. exact Hb.
+    apply nonspace_run; [exact Hw|exact HW| |].
+    + intros E. destruct (Hov E) as [HD Hf]. split; [exact HD|].
+      intros p' b cs' Hb. apply Hf. exact Hb.
     + mstep.
       change (d0 :: ds ++ sp :: w ++ W ++ 58 :: D) with ((d0 :: ds) ++ sp :: w ++ W ++ 58 :: D).
       rewrite (app_cons_assoc (d0 :: ds) sp w (W ++ 58 :: D)) at 1 2.
@@ -370,7 +378,7 @@ Lemma main_run_plain N u W D :
 Proof.
   intros Hne HN Hu Hnd HW HWa HDa HD. eexists. unfold re_match, main_lit. rewrite !m_seq.
   apply name_run; [exact Hne|exact HN|].
-  apply unit_plain_run; [exact Hu|exact Hnd|exact HW|exact HD|exact needs_colon_vd|].
+  apply unit_plain_run; [exact Hu|exact Hnd|exact HW|intros _; split; [exact HD|exact needs_colon_vd]|].
   apply vd_run; [exact HWa|exact HDa|exact HD].
 Qed.
 
@@ -384,7 +392,7 @@ Lemma main_run_num N ds sp w W D :
 Proof.
   intros Hne HN Hdne Hds Hsp Hw HW HWa HDa HD. eexists. unfold re_match, main_lit. rewrite !m_seq.
   apply name_run; [exact Hne|exact HN|].
-  apply unit_num_run; [exact Hdne|exact Hds|exact Hsp|exact Hw|exact HW|exact HD|exact needs_colon_vd|].
+  apply unit_num_run; [exact Hdne|exact Hds|exact Hsp|exact Hw|exact HW|intros _; split; [exact HD|exact needs_colon_vd]|].
   apply vd_run; [exact HWa|exact HDa|exact HD].
 Qed.
 
@@ -396,4 +404,561 @@ Proof.
   apply name_mp_run; [exact HN|]. rewrite m_seq, m_eps, m_seq.
   change (fun y : st => m Eps y kdone) with kdone.
   apply value_mp_run. exact HV.
+Qed.
+
+(* ---------- fragment: ~Parameter value (lazy any-star, eligible colon) and description --- *)
+Definition tvd_lit : re := Seq tvalue_lit desc_lit.
+
+Lemma m_notbehind alts x cont :
+  m (NotBehind alts) x cont =
+  if existsb (fun ks => prefix_cls (rev ks) (pre x)) alts then None else cont x.
+Proof. reflexivity. Qed.
+Lemma m_notahead alts x cont :
+  m (NotAhead alts) x cont =
+  if existsb (fun ks => prefix_cls ks (rem x)) alts then None else cont x.
+Proof. reflexivity. Qed.
+
+Lemma prefix_cls_mono t : forall ks s, prefix_cls ks s = true -> prefix_cls ks (s ++ t) = true.
+Proof.
+  induction ks as [|k ks IH]; intros s H; [reflexivity|].
+  destruct s as [|c s]; [discriminate|]. cbn [prefix_cls app] in *.
+  apply andb_true_iff in H as [Hc H]. rewrite Hc, (IH s H). reflexivity.
+Qed.
+
+Lemma ahead_blocked_mono s t : ahead_blocked s = true -> ahead_blocked (s ++ t) = true.
+Proof.
+  unfold ahead_blocked. rewrite !existsb_exists. intros (ks & Hin & H).
+  exists ks. split; [exact Hin|]. apply prefix_cls_mono. exact H.
+Qed.
+
+Lemma clock_colons_split b : forall a, clock_colons (a ++ 58 :: b) = true -> ahead_blocked b = true.
+Proof.
+  induction a as [|c a IH]; cbn [app clock_colons]; intros H; apply andb_true_iff in H as [H1 H2].
+  - exact H1.
+  - apply IH. exact H2.
+Qed.
+
+(* the lazy star stops at the first colon that is not a clock colon *)
+Lemma tvd_run W D p cs :
+  forallb (cmatch CAny) W = true -> forallb (cmatch CAny) D = true ->
+  clock_colons W = true -> behind_blocked (rev W ++ p) = false -> ahead_blocked D = false ->
+  m tvd_lit (mkst p (W ++ 58 :: D) cs) kdone =
+  Some (mkst (rev D ++ 58 :: rev W ++ p) [] ((3%nat, D) :: (2%nat, W) :: cs)).
+Proof.
+  intros HW HD Hcc Hb Ha. unfold tvd_lit, tvalue_lit, desc_lit. mstep.
+  apply star_l_pick; [exact HW| |].
+  - mstep. rewrite firstn_app_len. rewrite m_notbehind. cbn [pre].
+    change (existsb (fun ks => prefix_cls (rev ks) (rev W ++ p)) behind_lit) with (behind_blocked (rev W ++ p)).
+    rewrite Hb. mstep. rewrite cls_step by reflexivity. rewrite m_notahead. cbn [rem].
+    change (existsb (fun ks => prefix_cls ks D) ahead_lit) with (ahead_blocked D).
+    rewrite Ha. mstep. apply star_g_all; [exact HD|]. mstep. rewrite firstn_len_nil. reflexivity.
+  - intros a b Hb0 E. mstep. rewrite m_notbehind. cbn [pre].
+    destruct (existsb _ behind_lit); [reflexivity|]. mstep.
+    destruct b as [|b0 b]; [congruence|]. cbn [app].
+    destruct (cmatch (CChar 58) b0) eqn:Hb58; [|apply cls_fail; exact Hb58].
+    rewrite cls_step by exact Hb58. rewrite m_notahead. cbn [rem].
+    cbn [cmatch] in Hb58. apply N.eqb_eq in Hb58. subst b0 W.
+    apply clock_colons_split in Hcc.
+    change (existsb (fun ks => prefix_cls ks (b ++ 58 :: D)) ahead_lit) with (ahead_blocked (b ++ 58 :: D)).
+    rewrite (ahead_blocked_mono b (58 :: D) Hcc). reflexivity.
+Qed.
+
+(* a blank just before / just after the colon makes it a separator *)
+Lemma behind_blank c q : is_blank c = true -> behind_blocked (c :: q) = false.
+Proof.
+  intros H. unfold behind_blocked. change time_behind_alts with behind_lit.
+  unfold behind_lit. cbn [existsb rev app prefix_cls cmatch]. unfold is_blank in H. lia.
+Qed.
+Lemma ahead_blank c q : is_blank c = true -> ahead_blocked (c :: q) = false.
+Proof.
+  intros H. unfold ahead_blocked. change time_ahead_alts with ahead_lit.
+  unfold ahead_lit. cbn [existsb prefix_cls cmatch]. unfold is_blank in H. lia.
+Qed.
+
+Lemma clock_colons_pad a v b :
+  in_str 58 a = false -> in_str 58 b = false -> clock_colons v = true ->
+  clock_colons (a ++ v ++ b) = true.
+Proof.
+  intros Ha Hb Hv. induction a as [|c a IH]; cbn [app].
+  - clear Ha. induction v as [|c v IH]; cbn [app].
+    + induction b as [|c b IH]; [reflexivity|]. rewrite in_str_cons in Hb.
+      apply orb_false_iff in Hb as [Hc Hb]. cbn [clock_colons]. rewrite (IH Hb).
+      rewrite N.eqb_sym, Hc. reflexivity.
+    + cbn [clock_colons] in *. apply andb_true_iff in Hv as [H1 H2]. rewrite (IH H2).
+      rewrite andb_true_r. apply orb_true_iff in H1 as [H1|H1]; [rewrite H1; reflexivity|].
+      rewrite (ahead_blocked_mono v b H1). apply orb_true_r.
+  - rewrite in_str_cons in Ha. apply orb_false_iff in Ha as [Hc Ha]. cbn [clock_colons].
+    rewrite (IH Ha). rewrite N.eqb_sym, Hc. reflexivity.
+Qed.
+
+(* ---------- find / contains / search on the raw line --------------------------------- *)
+Lemma find_from_shift p : forall s i, find_from p s (S i) = option_map S (find_from p s i).
+Proof.
+  induction s as [|c s IH]; intros i; cbn [find_from].
+  - destruct (startswith p []); reflexivity.
+  - destruct (startswith p (c :: s)); [reflexivity|]. apply IH.
+Qed.
+
+(* line[:line.find(c)] as configure_patterns computes it *)
+Definition before (c : N) (s : list N) : list N :=
+  match find_char c s with Some i => firstn i s | None => s end.
+
+Lemma before_cons c x s : before c (x :: s) = if c =? x then [] else x :: before c s.
+Proof.
+  unfold before, find_char, find. cbn [find_from startswith]. destruct (c =? x); cbn [andb].
+  - destruct s; reflexivity.
+  - rewrite find_from_shift. destruct (find_from [c] s 0); reflexivity.
+Qed.
+
+Lemma before_has_dot R : forall N, in_str 58 N = false -> in_str 46 (before 58 (N ++ 46 :: R)) = true.
+Proof.
+  induction N as [|x N IH]; intros H; cbn [app]; rewrite before_cons.
+  - reflexivity.
+  - rewrite in_str_cons in H. apply orb_false_iff in H as [Hx HN]. rewrite Hx.
+    rewrite in_str_cons, (IH HN). apply orb_true_r.
+Qed.
+
+Lemma before_first B : forall A, in_str 58 A = false -> before 58 (A ++ 58 :: B) = A.
+Proof.
+  induction A as [|x A IH]; intros H; cbn [app]; rewrite before_cons.
+  - reflexivity.
+  - rewrite in_str_cons in H. apply orb_false_iff in H as [Hx HA]. rewrite Hx, (IH HA). reflexivity.
+Qed.
+
+Lemma in_str_mid c A B : in_str c (A ++ c :: B) = true.
+Proof. rewrite in_str_app, in_str_cons, N.eqb_refl. cbn. apply orb_true_r. Qed.
+
+Lemma contains_cons p x s : contains p (x :: s) = startswith p (x :: s) || contains p s.
+Proof.
+  unfold contains, find. cbn [find_from]. destruct (startswith p (x :: s)); [reflexivity|].
+  rewrite find_from_shift. destruct (find_from p s 0); reflexivity.
+Qed.
+
+Lemma dd_here_fail p c s :
+  contains [46; 46] s = false -> m dd_lit (mkst p (c :: s) []) kdone = None.
+Proof.
+  intros H. unfold dd_lit. rewrite m_seq. destruct (cmatch (CNot (CChar 32)) c) eqn:Hc.
+  - rewrite cls_step by exact Hc. rewrite m_seq.
+    destruct s as [|a s]; [reflexivity|]. rewrite contains_cons in H.
+    apply orb_false_iff in H as [H _].
+    destruct (cmatch (CChar 46) a) eqn:Ha; [|apply cls_fail; exact Ha].
+    rewrite cls_step by exact Ha. apply cls_fail. destruct s as [|b s]; [exact I|].
+    cbn [startswith] in H. cbn [cmatch] in *. rewrite (N.eqb_sym 46 a), Ha in H.
+    rewrite (N.eqb_sym 46 b) in H. cbn [andb] in H. rewrite andb_true_r in H. exact H.
+  - apply cls_fail. exact Hc.
+Qed.
+
+Lemma no_dd_search : forall s p, contains [46; 46] s = false -> search_from dd_lit p s = None.
+Proof.
+  induction s as [|c s IH]; intros p H; cbn [search_from].
+  - reflexivity.
+  - rewrite contains_cons in H. apply orb_false_iff in H as [_ H].
+    rewrite (dd_here_fail p c s H). apply IH. exact H.
+Qed.
+
+Lemma no_dd_re_search s : contains [46; 46] s = false -> re_search dd_lit s = false.
+Proof. intros H. unfold re_search. rewrite (no_dd_search s [] H). reflexivity. Qed.
+
+(* ---------- pattern selection -------------------------------------------------------- *)
+Definition time_lit : re := Seq name_lit (Seq unit_lit (Seq tvalue_lit desc_lit)).
+
+(* a line with a colon and a period before the first colon, no ".." trigger in ~Curves:
+   the ordinary pattern, preceded by the time pattern in ~Parameter *)
+Lemma cp_period line ic ip :
+  in_str 58 line = true -> in_str 46 (before 58 line) = true ->
+  (ic = true -> re_search dd_lit line = false) ->
+  configure_patterns line ic ip = if ip then [time_lit; main_lit] else [main_lit].
+Proof.
+  intros Hc Hd Hdd. unfold configure_patterns. cbv zeta.
+  change (match find_char ch_colon line with Some i => firstn i line | None => line end)
+    with (before 58 line).
+  change (in_str ch_colon line) with (in_str 58 line). change (in_str ch_dot (before 58 line)) with (in_str 46 (before 58 line)).
+  rewrite Hc, Hd. cbn [andb negb].
+  change rx_double_dot_search with dd_lit.
+  destruct ic.
+  - rewrite (Hdd eq_refl). cbn [andb]. reflexivity.
+  - rewrite andb_false_r. reflexivity.
+Qed.
+
+(* a line whose text before the first colon has no period: NAME : VALUE in every section *)
+Lemma cp_missing_period line ic ip :
+  in_str 58 line = true -> in_str 46 (before 58 line) = false ->
+  (ic = true -> re_search dd_lit line = false) ->
+  configure_patterns line ic ip = if ip then [mp_lit; mp_lit] else [mp_lit].
+Proof.
+  intros Hc Hd Hdd. unfold configure_patterns. cbv zeta.
+  change (match find_char ch_colon line with Some i => firstn i line | None => line end)
+    with (before 58 line).
+  change (in_str ch_colon line) with (in_str 58 line). change (in_str ch_dot (before 58 line)) with (in_str 46 (before 58 line)).
+  rewrite Hc, Hd. cbn [andb negb].
+  change rx_double_dot_search with dd_lit.
+  destruct ic.
+  - rewrite (Hdd eq_refl). cbn [andb]. reflexivity.
+  - rewrite andb_false_r. reflexivity.
+Qed.
+
+(* ---------- the ~Parameter time pattern on the layout -------------------------------- *)
+Lemma tvd_fail s p cs : in_str 58 s = false -> m tvd_lit (mkst p s cs) kdone = None.
+Proof.
+  intros Hs. unfold tvd_lit, tvalue_lit, desc_lit. mstep.
+  apply star_l_none. intros a b E _. mstep. rewrite m_notbehind.
+  destruct (existsb _ behind_lit); [reflexivity|]. mstep.
+  apply cls_fail. destruct b as [|b0 b]; [exact I|].
+  cbn [cmatch]. subst s. apply in_str_suffix in Hs. apply in_str_head in Hs. exact Hs.
+Qed.
+
+Lemma needs_colon_tvd : needs_colon (fun y => m tvd_lit y kdone).
+Proof. intros p b cs Hb. apply tvd_fail. exact Hb. Qed.
+
+Lemma time_run_plain N u W D :
+  N <> [] -> in_str 46 N = false ->
+  no_space u = true -> is_nil u || negb (all_digit u) = true ->
+  head_space W -> (W = [] -> in_str 58 D = false) -> forallb (cmatch CAny) W = true ->
+  forallb (cmatch CAny) D = true -> clock_colons W = true ->
+  behind_blocked (rev W ++ rev u ++ 46 :: rev N ++ []) = false -> ahead_blocked D = false ->
+  exists q, re_match time_lit (N ++ 46 :: u ++ W ++ 58 :: D) =
+    Some (mkst q [] [(3%nat, D); (2%nat, W); (1%nat, u); (0%nat, N)]).
+Proof.
+  intros Hne HN Hu Hnd HW HWD HWa HDa Hcc Hb Ha. eexists. unfold re_match, time_lit.
+  change (Seq tvalue_lit desc_lit) with tvd_lit. rewrite !m_seq.
+  apply name_run; [exact Hne|exact HN|].
+  apply unit_plain_run; [exact Hu|exact Hnd|exact HW| |].
+  - intros E. split; [exact (HWD E)|exact needs_colon_tvd].
+  - apply tvd_run; [exact HWa|exact HDa|exact Hcc|exact Hb|exact Ha].
+Qed.
+
+Lemma forallb_last (f : N -> bool) x : x <> [] -> forallb f x = true -> f (last x 0) = true.
+Proof.
+  intros Hne H. rewrite forallb_forall in H. apply H.
+  rewrite (app_removelast_last 0 Hne) at 2. apply in_or_app. right. left. reflexivity.
+Qed.
+
+Lemma rev_pad_blank (a v p3 : list N) :
+  p3 <> [] -> blanks p3 = true ->
+  exists c q, rev (a ++ v ++ p3) = c :: q /\ is_blank c = true.
+Proof.
+  intros Hne Hb. exists (last p3 0), (rev (a ++ v ++ removelast p3)). split.
+  - rewrite (app_removelast_last 0 Hne) at 1. rewrite !app_assoc, rev_app_distr. reflexivity.
+  - apply forallb_last; [exact Hne|exact Hb].
+Qed.
+
+(* ---------- post-processing ---------------------------------------------------------- *)
+Lemma no_space_stripped u : no_space u = true -> stripped u = true.
+Proof.
+  intros H. destruct u as [|c u]; [reflexivity|]. unfold stripped.
+  assert (Hl : negb (is_space (last (c :: u) 0)) = true).
+  { assert (Hin : In (last (c :: u) 0) (c :: u)).
+    { assert (Hne : c :: u <> []) by discriminate.
+      rewrite (app_removelast_last 0 Hne) at 2. apply in_or_app. right. left. reflexivity. }
+    unfold no_space in H. rewrite forallb_forall in H. apply H. exact Hin. }
+  rewrite Hl. cbn [no_space forallb] in H. apply andb_true_iff in H as [Hc _]. rewrite Hc. reflexivity.
+Qed.
+
+Lemma fix_unit_id u : stripped u = true -> endswith [46] u = false -> fix_unit u = u.
+Proof.
+  intros Hs He. unfold fix_unit. rewrite (strip_stripped u Hs).
+  change (endswith [ch_dot] u) with (endswith [46] u). rewrite He. reflexivity.
+Qed.
+
+Lemma stripped_num ds sp w :
+  ds <> [] -> all_digit ds = true -> w <> [] -> no_space w = true -> stripped (ds ++ sp :: w) = true.
+Proof.
+  intros Hne Hds Hw Hns. destruct ds as [|d0 ds]; [congruence|].
+  cbn [all_digit forallb] in Hds. apply andb_true_iff in Hds as [Hd0 _].
+  unfold stripped. cbn [app]. rewrite (digit_not_space d0 Hd0). cbn [negb andb].
+  change (d0 :: ds ++ sp :: w) with ((d0 :: ds) ++ sp :: w).
+  rewrite (app_cons_snoc (d0 :: ds) sp w).
+  rewrite (app_removelast_last 0 Hw), app_assoc, last_last.
+  apply no_space_stripped in Hns. destruct w as [|w0 w]; [congruence|].
+  unfold stripped in Hns. apply andb_true_iff in Hns as [_ Hl]. exact Hl.
+Qed.
+
+Lemma endswith_app_ne c a w : w <> [] -> endswith [c] (a ++ w) = endswith [c] w.
+Proof.
+  intros Hw. unfold endswith. rewrite rev_app_distr.
+  rewrite (app_removelast_last 0 Hw), rev_app_distr. reflexivity.
+Qed.
+
+(* ---------- read_header_line on the layouts ------------------------------------------ *)
+Lemma layout_assoc (p0 mn p1 u p2 v p3 p4 d p5 : list N) :
+  p0 ++ mn ++ p1 ++ [46] ++ u ++ p2 ++ v ++ p3 ++ [58] ++ p4 ++ d ++ p5 =
+  (p0 ++ mn ++ p1) ++ 46 :: u ++ (p2 ++ v ++ p3) ++ 58 :: (p4 ++ d ++ p5).
+Proof. cbn [app]. rewrite <- !app_assoc. reflexivity. Qed.
+
+Lemma app3_ne (a x b : list N) : x <> [] -> a ++ x ++ b <> [].
+Proof. intros Hx H. apply app_eq_nil in H as [_ H]. apply app_eq_nil in H as [H _]. exact (Hx H). Qed.
+
+Lemma blanks_any p : blanks p = true -> forallb (cmatch CAny) p = true.
+Proof. intros H. apply nonl_any. apply blanks_in_str; [reflexivity|exact H]. Qed.
+
+(* value zone p2 ++ v ++ p3: empty or starting with white space *)
+Lemma head_space_value p2 v p3 :
+  blanks p2 = true -> blanks p3 = true -> is_nil v || negb (is_nil p2) = true ->
+  head_space (p2 ++ v ++ p3).
+Proof.
+  intros H2 H3 Hv. destruct p2 as [|c p2].
+  - destruct v as [|c v]; [|discriminate]. cbn [app]. destruct p3 as [|c p3]; [exact I|].
+    cbn [blanks forallb] in H3. apply andb_true_iff in H3 as [Hc _]. cbn. apply blank_space. exact Hc.
+  - cbn [blanks forallb] in H2. apply andb_true_iff in H2 as [Hc _]. cbn. apply blank_space. exact Hc.
+Qed.
+
+Section Layout.
+  Variables p0 mn p1 u p2 v p3 p4 d p5 : list N.
+  Hypothesis Hp0 : blanks p0 = true.
+  Hypothesis Hp1 : blanks p1 = true.
+  Hypothesis Hp2 : blanks p2 = true.
+  Hypothesis Hp3 : blanks p3 = true.
+  Hypothesis Hp4 : blanks p4 = true.
+  Hypothesis Hp5 : blanks p5 = true.
+  Hypothesis Hmn_ne : mn <> [].
+  Hypothesis Hmn_dot : in_str 46 mn = false.
+  Hypothesis Hmn_colon : in_str 58 mn = false.
+  Hypothesis Hmn_strip : stripped mn = true.
+  Hypothesis Hv_strip : stripped v = true.
+  Hypothesis Hv_nl : in_str 10 v = false.
+  Hypothesis Hv_sep : is_nil v || negb (is_nil p2) = true.
+  Hypothesis Hd_strip : stripped d = true.
+  Hypothesis Hd_nl : in_str 10 d = false.
+
+  Let Nm := p0 ++ mn ++ p1.
+  Let W := p2 ++ v ++ p3.
+  Let D := p4 ++ d ++ p5.
+
+  Lemma lay_N_ne : Nm <> [].
+  Proof. apply app3_ne. exact Hmn_ne. Qed.
+  Lemma lay_N_dot : in_str 46 Nm = false.
+  Proof. apply in_str_app3; [apply blanks_in_str; [reflexivity|exact Hp0]|exact Hmn_dot|apply blanks_in_str; [reflexivity|exact Hp1]]. Qed.
+  Lemma lay_N_colon : in_str 58 Nm = false.
+  Proof. apply in_str_app3; [apply blanks_in_str; [reflexivity|exact Hp0]|exact Hmn_colon|apply blanks_in_str; [reflexivity|exact Hp1]]. Qed.
+  Lemma lay_W_any : forallb (cmatch CAny) W = true.
+  Proof. apply forallb_app3; [apply blanks_any; exact Hp2|apply nonl_any; exact Hv_nl|apply blanks_any; exact Hp3]. Qed.
+  Lemma lay_D_any : forallb (cmatch CAny) D = true.
+  Proof. apply forallb_app3; [apply blanks_any; exact Hp4|apply nonl_any; exact Hd_nl|apply blanks_any; exact Hp5]. Qed.
+  Lemma lay_W_head : head_space W.
+  Proof. apply head_space_value; assumption. Qed.
+  Lemma lay_D_colon : in_str 58 d = false -> in_str 58 D = false.
+  Proof. intros H. apply in_str_app3; [apply blanks_in_str; [reflexivity|exact Hp4]|exact H|apply blanks_in_str; [reflexivity|exact Hp5]]. Qed.
+
+  (* pattern selection on a line N . U W : D *)
+  Lemma lay_cp U ic ip :
+    (ic = true -> contains [46; 46] (Nm ++ 46 :: U ++ W ++ 58 :: D) = false) ->
+    configure_patterns (Nm ++ 46 :: U ++ W ++ 58 :: D) ic ip =
+    if ip then [time_lit; main_lit] else [main_lit].
+  Proof.
+    intros Hdd. apply cp_period.
+    - rewrite in_str_app, in_str_cons, in_str_app, in_str_app, in_str_cons. cbn. rewrite !orb_true_r. reflexivity.
+    - apply before_has_dot. exact lay_N_colon.
+    - intros Hic. apply no_dd_re_search. apply Hdd. exact Hic.
+  Qed.
+
+  (* ordinary layout, outside ~Parameter *)
+  Lemma rhl_main ic :
+    no_space u = true -> endswith [46] u = false -> is_nil u || negb (all_digit u) = true ->
+    in_str 58 d = false ->
+    (ic = true -> contains [46; 46]
+       (p0 ++ mn ++ p1 ++ [46] ++ u ++ p2 ++ v ++ p3 ++ [58] ++ p4 ++ d ++ p5) = false) ->
+    read_header_line (p0 ++ mn ++ p1 ++ [46] ++ u ++ p2 ++ v ++ p3 ++ [58] ++ p4 ++ d ++ p5) ic false
+    = Some (mkhl mn u v d).
+  Proof.
+    intros Hu Hue Hud Hdc Hdd. rewrite layout_assoc in Hdd |- *. fold Nm W D in Hdd |- *.
+    unfold read_header_line. rewrite (lay_cp u ic false Hdd). cbn [first_match].
+    destruct (main_run_plain Nm u W D lay_N_ne lay_N_dot Hu Hud lay_W_head lay_W_any lay_D_any
+                (lay_D_colon Hdc)) as [q Hq].
+    rewrite Hq. cbn [caps group_opt Nat.eqb]. f_equal.
+    unfold Nm, W, D. rewrite !strip_pad by assumption.
+    rewrite (fix_unit_id u (no_space_stripped u Hu) Hue). reflexivity.
+  Qed.
+
+  (* numeric unit with one white-space character and a suffix: "1000 lbf" *)
+  Lemma rhl_num ds sp w ic :
+    ds <> [] -> all_digit ds = true -> is_blank sp = true ->
+    w <> [] -> no_space w = true -> endswith [46] w = false ->
+    u = ds ++ [sp] ++ w ->
+    in_str 58 d = false ->
+    (ic = true -> contains [46; 46]
+       (p0 ++ mn ++ p1 ++ [46] ++ u ++ p2 ++ v ++ p3 ++ [58] ++ p4 ++ d ++ p5) = false) ->
+    read_header_line (p0 ++ mn ++ p1 ++ [46] ++ u ++ p2 ++ v ++ p3 ++ [58] ++ p4 ++ d ++ p5) ic false
+    = Some (mkhl mn u v d).
+  Proof.
+    intros Hdne Hds Hsp Hwne Hw Hwe Eu Hdc Hdd. rewrite layout_assoc in Hdd |- *. fold Nm W D in Hdd |- *.
+    unfold read_header_line. rewrite (lay_cp u ic false Hdd). cbn [first_match].
+    subst u. cbn [app]. rewrite <- app_assoc. cbn [app].
+    destruct (main_run_num Nm ds sp w W D lay_N_ne lay_N_dot Hdne Hds (blank_space sp Hsp) Hw
+                lay_W_head lay_W_any lay_D_any (lay_D_colon Hdc)) as [q Hq].
+    rewrite Hq. cbn [caps group_opt Nat.eqb]. f_equal.
+    unfold Nm, W, D. rewrite !strip_pad by assumption.
+    rewrite fix_unit_id; [reflexivity|apply stripped_num; assumption|].
+    change (ds ++ sp :: w) with (ds ++ [sp] ++ w). rewrite app_assoc.
+    rewrite endswith_app_ne by exact Hwne. exact Hwe.
+  Qed.
+
+  (* ~Parameter: clock colons stay in the value, the separating colon is set off by a blank
+     on both sides, the description may contain colons *)
+  Lemma rhl_param_time ic :
+    no_space u = true -> endswith [46] u = false -> is_nil u || negb (all_digit u) = true ->
+    clock_colons v = true -> p3 <> [] -> p4 <> [] ->
+    (ic = true -> contains [46; 46]
+       (p0 ++ mn ++ p1 ++ [46] ++ u ++ p2 ++ v ++ p3 ++ [58] ++ p4 ++ d ++ p5) = false) ->
+    read_header_line (p0 ++ mn ++ p1 ++ [46] ++ u ++ p2 ++ v ++ p3 ++ [58] ++ p4 ++ d ++ p5) ic true
+    = Some (mkhl mn u v d).
+  Proof.
+    intros Hu Hue Hud Hcc Hp3ne Hp4ne Hdd. rewrite layout_assoc in Hdd |- *. fold Nm W D in Hdd |- *.
+    unfold read_header_line. rewrite (lay_cp u ic true Hdd). cbn [first_match].
+    assert (HWne : W <> []).
+    { unfold W. intros E. apply app_eq_nil in E as [_ E]. apply app_eq_nil in E as [_ E]. exact (Hp3ne E). }
+    assert (Hcw : clock_colons W = true).
+    { unfold W. apply clock_colons_pad; [apply blanks_in_str; [reflexivity|exact Hp2]|apply blanks_in_str; [reflexivity|exact Hp3]|exact Hcc]. }
+    assert (Hb : behind_blocked (rev W ++ rev u ++ 46 :: rev Nm ++ []) = false).
+    { unfold W. destruct (rev_pad_blank p2 v p3 Hp3ne Hp3) as (c & q & E & Hc). rewrite E.
+      cbn [app]. apply behind_blank. exact Hc. }
+    assert (Ha : ahead_blocked D = false).
+    { unfold D. destruct p4 as [|c p4']; [congruence|]. cbn [app].
+      cbn [blanks forallb] in Hp4. apply andb_true_iff in Hp4 as [Hc _]. apply ahead_blank. exact Hc. }
+    destruct (time_run_plain Nm u W D lay_N_ne lay_N_dot Hu Hud lay_W_head
+                (fun E => False_ind _ (HWne E)) lay_W_any lay_D_any Hcw Hb Ha) as [q Hq].
+    rewrite Hq. cbn [caps group_opt Nat.eqb]. f_equal.
+    unfold Nm, W, D. rewrite !strip_pad by assumption.
+    rewrite (fix_unit_id u (no_space_stripped u Hu) Hue). reflexivity.
+  Qed.
+End Layout.
+
+(* ---------- a line without a period is NAME : VALUE ---------------------------------- *)
+Lemma layout_mp_assoc (p0 nm p1 p4 v p5 : list N) :
+  p0 ++ nm ++ p1 ++ [58] ++ p4 ++ v ++ p5 = (p0 ++ nm ++ p1) ++ 58 :: (p4 ++ v ++ p5).
+Proof. cbn [app]. rewrite <- !app_assoc. reflexivity. Qed.
+
+Lemma rhl_missing_period p0 nm p1 p4 v p5 ic ip :
+  blanks p0 = true -> blanks p1 = true -> blanks p4 = true -> blanks p5 = true ->
+  in_str 46 nm = false -> in_str 58 nm = false -> stripped nm = true ->
+  stripped v = true -> in_str 10 v = false ->
+  (ic = true -> contains [46; 46] (p0 ++ nm ++ p1 ++ [58] ++ p4 ++ v ++ p5) = false) ->
+  read_header_line (p0 ++ nm ++ p1 ++ [58] ++ p4 ++ v ++ p5) ic ip = Some (mkhl nm [] v []).
+Proof.
+  intros Hp0 Hp1 Hp4 Hp5 Hdot Hcol Hns Hvs Hvn Hdd. rewrite layout_mp_assoc in Hdd |- *.
+  assert (HNc : in_str 58 (p0 ++ nm ++ p1) = false).
+  { apply in_str_app3; [apply blanks_in_str; [reflexivity|exact Hp0]|exact Hcol|apply blanks_in_str; [reflexivity|exact Hp1]]. }
+  assert (HNd : in_str 46 (p0 ++ nm ++ p1) = false).
+  { apply in_str_app3; [apply blanks_in_str; [reflexivity|exact Hp0]|exact Hdot|apply blanks_in_str; [reflexivity|exact Hp1]]. }
+  assert (HV : forallb (cmatch CAny) (p4 ++ v ++ p5) = true).
+  { apply forallb_app3; [apply blanks_any; exact Hp4|apply nonl_any; exact Hvn|apply blanks_any; exact Hp5]. }
+  unfold read_header_line. rewrite (cp_missing_period _ ic ip).
+  - destruct (mp_run _ _ HNc HV) as [q Hq].
+    assert (Hfm : first_match (if ip then [mp_lit; mp_lit] else [mp_lit])
+                    ((p0 ++ nm ++ p1) ++ 58 :: p4 ++ v ++ p5) = Some (mkst q [] [(2%nat, p4 ++ v ++ p5); (0%nat, p0 ++ nm ++ p1)])).
+    { destruct ip; cbn [first_match]; rewrite Hq; reflexivity. }
+    rewrite Hfm. cbn [caps group_opt Nat.eqb]. rewrite !strip_pad by assumption. reflexivity.
+  - apply in_str_mid.
+  - rewrite (before_first _ _ HNc). exact HNd.
+  - intros Hic. apply no_dd_re_search. apply Hdd. exact Hic.
+Qed.
+
+(* ---------- the statements of Props/C04.v -------------------------------------------- *)
+Lemma is_nil_false (x : list N) : negb (is_nil x) = true -> x <> [].
+Proof. destruct x; [discriminate|]. intros _. discriminate. Qed.
+
+Ltac split_bools :=
+  repeat match goal with
+         | H : _ && _ = true |- _ => apply andb_true_iff in H; destruct H
+         end;
+  repeat match goal with
+         | H : negb (is_nil _) = true |- _ => apply is_nil_false in H
+         | H : negb _ = true |- _ => apply negb_true_iff in H
+         end.
+
+Theorem main_parse : forall p0 mn p1 u p2 v p3 p4 d p5 : list N,
+  padding6 p0 p1 p2 p3 p4 p5 = true ->
+  conf_mnem mn = true -> conf_unit u = true -> conf_text v = true -> conf_text d = true ->
+  value_set_off p2 v = true ->
+  in_str 58 d = false ->
+  read_header_line (layout p0 mn p1 u p2 v p3 p4 d p5) false false = Some (mkhl mn u v d).
+Proof.
+  intros p0 mn p1 u p2 v p3 p4 d p5 Hp Hm Hu Hv Hd Hso Hdc.
+  unfold padding6, conf_mnem, conf_unit, conf_text, value_set_off in *. split_bools.
+  apply rhl_main; try assumption. discriminate.
+Qed.
+
+Theorem curves_parse : forall p0 mn p1 u p2 v p3 p4 d p5 : list N,
+  padding6 p0 p1 p2 p3 p4 p5 = true ->
+  conf_mnem mn = true -> conf_unit u = true -> conf_text v = true -> conf_text d = true ->
+  value_set_off p2 v = true ->
+  in_str 58 d = false ->
+  no_double_dot (layout p0 mn p1 u p2 v p3 p4 d p5) = true ->
+  read_header_line (layout p0 mn p1 u p2 v p3 p4 d p5) true false = Some (mkhl mn u v d).
+Proof.
+  intros p0 mn p1 u p2 v p3 p4 d p5 Hp Hm Hu Hv Hd Hso Hdc Hdd.
+  unfold padding6, conf_mnem, conf_unit, conf_text, value_set_off, no_double_dot in *. split_bools.
+  apply rhl_main; try assumption. intros _. assumption.
+Qed.
+
+Theorem missing_period : forall (p0 nm p1 p4 v p5 : list N) (is_curves is_param : bool),
+  blanks p0 && blanks p1 && blanks p4 && blanks p5 = true ->
+  conf_name_np nm = true -> conf_text v = true ->
+  (is_curves = true -> no_double_dot (layout_np p0 nm p1 p4 v p5) = true) ->
+  read_header_line (layout_np p0 nm p1 p4 v p5) is_curves is_param = Some (mkhl nm [] v []).
+Proof.
+  intros p0 nm p1 p4 v p5 ic ip Hp Hn Hv Hdd.
+  unfold conf_name_np, conf_text in *. split_bools.
+  apply rhl_missing_period; try assumption.
+  intros Hic. specialize (Hdd Hic). unfold no_double_dot in Hdd. apply negb_true_iff in Hdd. exact Hdd.
+Qed.
+
+Theorem numeric_unit : forall (p0 mn p1 ds : list N) (sp : N) (w p2 v p3 p4 d p5 : list N) (is_curves : bool),
+  padding6 p0 p1 p2 p3 p4 p5 = true ->
+  conf_mnem mn = true -> conf_numeric_unit ds sp w = true ->
+  conf_text v = true -> conf_text d = true -> value_set_off p2 v = true ->
+  in_str 58 d = false ->
+  (is_curves = true -> no_double_dot (layout p0 mn p1 (ds ++ [sp] ++ w) p2 v p3 p4 d p5) = true) ->
+  read_header_line (layout p0 mn p1 (ds ++ [sp] ++ w) p2 v p3 p4 d p5) is_curves false
+  = Some (mkhl mn (ds ++ [sp] ++ w) v d).
+Proof.
+  intros p0 mn p1 ds sp w p2 v p3 p4 d p5 ic Hp Hm Hu Hv Hd Hso Hdc Hdd.
+  unfold padding6, conf_mnem, conf_numeric_unit, conf_text, value_set_off in *. split_bools.
+  apply (rhl_num p0 mn p1 (ds ++ [sp] ++ w) p2 v p3 p4 d p5) with (ds := ds) (sp := sp) (w := w);
+    try assumption; try reflexivity.
+  intros Hic. specialize (Hdd Hic). unfold no_double_dot in Hdd. apply negb_true_iff in Hdd. exact Hdd.
+Qed.
+
+Theorem param_time : forall (p0 mn p1 u p2 v p3 p4 d p5 : list N) (is_curves : bool),
+  padding6 p0 p1 p2 p3 p4 p5 = true ->
+  conf_mnem mn = true -> conf_unit u = true -> conf_text v = true -> conf_text d = true ->
+  value_set_off p2 v = true ->
+  clock_colons v = true ->
+  negb (is_nil p3) && negb (is_nil p4) = true ->
+  (is_curves = true -> no_double_dot (layout p0 mn p1 u p2 v p3 p4 d p5) = true) ->
+  read_header_line (layout p0 mn p1 u p2 v p3 p4 d p5) is_curves true = Some (mkhl mn u v d).
+Proof.
+  intros p0 mn p1 u p2 v p3 p4 d p5 ic Hp Hm Hu Hv Hd Hso Hcc Hne Hdd.
+  unfold padding6, conf_mnem, conf_unit, conf_text, value_set_off in *. split_bools.
+  apply rhl_param_time; try assumption.
+  intros Hic. specialize (Hdd Hic). unfold no_double_dot in Hdd. apply negb_true_iff in Hdd. exact Hdd.
+Qed.
+
+(* ---------- the clock-time sweep ----------------------------------------------------- *)
+Lemma str_eqb_eq : forall a b, str_eqb a b = true -> a = b.
+Proof.
+  induction a as [|x a IH]; destruct b as [|y b]; cbn [str_eqb]; try discriminate; [reflexivity|].
+  intros H. apply andb_true_iff in H as [Hx H]. apply N.eqb_eq in Hx. rewrite Hx, (IH b H). reflexivity.
+Qed.
+
+Lemma ohline_eqb_eq a b : ohline_eqb a b = true -> a = b.
+Proof.
+  destruct a as [[a1 a2 a3 a4]|], b as [[b1 b2 b3 b4]|]; cbn; try discriminate; [|reflexivity].
+  unfold hline_eqb. cbn. intros H. split_bools.
+  repeat match goal with H : str_eqb _ _ = true |- _ => apply str_eqb_eq in H end.
+  subst. reflexivity.
+Qed.
+
+Lemma time_sweep_bool :
+  forallb (fun h => forallb (fun mi =>
+     ohline_eqb (read_header_line (time_line h mi) false true) (Some (time_expected h mi)))
+     (seq 0 60)) (seq 0 24) = true.
+Proof. vm_compute. reflexivity. Qed.
+
+Theorem time_sweep : forall h mi : nat, (h < 24)%nat -> (mi < 60)%nat ->
+  read_header_line (time_line h mi) false true = Some (time_expected h mi).
+Proof.
+  intros h mi Hh Hmi. pose proof time_sweep_bool as H. rewrite forallb_forall in H.
+  assert (Hin : In h (seq 0 24)) by (apply in_seq; lia). specialize (H h Hin).
+  rewrite forallb_forall in H. assert (Hin' : In mi (seq 0 60)) by (apply in_seq; lia).
+  apply ohline_eqb_eq. exact (H mi Hin').
 Qed.
